@@ -116,11 +116,13 @@ def bath_modes(chk, n):
     def exact_correlation(t_1, t_2, w_1, w_2, dagg, g_1, g_2, temp):
         ph_1 = np.exp(1j * (2 * dagg[1] - 1) * w_1 * t_1)
         ph_2 = np.exp(1j * (2 * dagg[0] - 1) * w_2 * t_2)
+        # free part (equal frequencies only): <a(t2) a^+(t1)> = (n+1) e^{-iw(t2-t1)}, <a^+(t2) a(t1)> = n e^{+iw(t2-t1)}
+        nth = (np.exp(w_1 / temp) - 1) ** (-1) if temp > 0 else 0.0
         out = 0
-        if dagg in ((0, 1), (1, 0)) and w_1 == w_2:
-            out += 1
-            if dagg == (1, 0) and temp > 0:
-                out += (np.exp(w_1 / temp) - 1) ** (-1)
+        if w_1 == w_2 and dagg == (0, 1):
+            out = nth + 1
+        elif w_1 == w_2 and dagg == (1, 0):
+            out = nth
         out *= ph_1 * ph_2
         return out + (ph_1 * ph_2 - ph_1 - ph_2 + 1) * (g_1 * g_2) / (w_1 * w_2)
     for it in range(n):
